@@ -1235,15 +1235,31 @@ func (g *frameGen) senderFacts(b *strings.Builder) error {
 	if fd == nil || fd.Recv == nil {
 		return fmt.Errorf("rawSocketPeer.sendHandler not found")
 	}
-	// the `case msg := <-rs.wr:` clause
-	cc, _ := frFind(fd, func(n ast.Node) bool {
-		c, ok := n.(*ast.CommClause)
-		return ok && c.Comm != nil && g.has(c.Comm, "<-rs.wr")
-	}).(*ast.CommClause)
-	if cc == nil {
-		return fmt.Errorf("sendHandler: `case msg := <-rs.wr` not found")
+	// The statements that handle one message start with the Serialize call: a
+	// bare block of the loop body (current shape) or the body of the
+	// `case msg := <-rs.wr:` clause (the shape before the drain fix).
+	const serLine = "b, err := rs.serializer.Serialize(msg)"
+	var list []ast.Stmt
+	ast.Inspect(fd, func(n ast.Node) bool {
+		var l []ast.Stmt
+		switch n := n.(type) {
+		case *ast.BlockStmt:
+			l = n.List
+		case *ast.CommClause:
+			l = n.Body
+		}
+		if list == nil && len(l) > 0 && g.line(l[0]) == serLine {
+			list = l
+		}
+		return true
+	})
+	if list == nil {
+		return fmt.Errorf("sendHandler: `%s` not found at the head of a block", serLine)
 	}
-	w := &frWalker{g: g, fn: "sendHandler", list: cc.Body}
+	if err := g.drainFacts(fd, b); err != nil {
+		return err
+	}
+	w := &frWalker{g: g, fn: "sendHandler", list: list}
 	if err := w.expectLine("b, err := rs.serializer.Serialize(msg)"); err != nil {
 		return err
 	}
@@ -1274,33 +1290,100 @@ func (g *frameGen) senderFacts(b *strings.Builder) error {
 	if err := w.expectLine("lenBytes := intToBytes(len(b))"); err != nil {
 		return err
 	}
-	s, err = w.next("header := …")
-	if err != nil {
-		return err
-	}
-	as, ok := s.(*ast.AssignStmt)
-	if !ok || as.Tok != token.DEFINE || types.ExprString(as.Lhs[0]) != "header" {
-		return g.errf(s, "sendHandler: expected `header := []byte{…}`")
-	}
 	xh := g.env().with("lenBytes", "lenBytes", frBytes)
-	h, err := xh.exprT(as.Rhs[0], frBytes)
+	s, err = w.next("header := … / frame := make(…)")
 	if err != nil {
 		return err
 	}
-	fmt.Fprintf(b, "/-- `%s` where lenBytes = intToBytes(len(b)) -/\ndef sendHeader (lenBytes : List UInt8) : List UInt8 := %s\n\n", g.line(s), h)
-	// two Write calls: header, then b
-	var writes []string
-	for _, arg := range []string{"header", "b"} {
-		s, err = w.expectPrefix("if _, err = rs.conn.Write(" + arg + "); err != nil {")
+	var hdr ast.Expr
+	var parts string
+	if g.line(s) == "frame := make([]byte, 0, len(b)+4)" {
+		// one Write call: frame = header ++ b
+		s, err = w.next("frame = append(frame, <header bytes>)")
 		if err != nil {
 			return err
 		}
-		writes = append(writes, leanStr(arg))
+		as, ok := s.(*ast.AssignStmt)
+		var call *ast.CallExpr
+		if ok && len(as.Rhs) == 1 {
+			call, _ = as.Rhs[0].(*ast.CallExpr)
+		}
+		if call == nil || as.Tok != token.ASSIGN || types.ExprString(as.Lhs[0]) != "frame" ||
+			types.ExprString(call.Fun) != "append" || len(call.Args) < 2 || types.ExprString(call.Args[0]) != "frame" || call.Ellipsis.IsValid() {
+			return g.errf(s, "sendHandler: expected `frame = append(frame, <header bytes>)`")
+		}
+		hdr = &ast.CompositeLit{Type: &ast.ArrayType{Elt: ast.NewIdent("byte")}, Elts: call.Args[1:]}
+		if err := w.expectLine("frame = append(frame, b...)"); err != nil {
+			return err
+		}
+		if _, err = w.expectPrefix("if _, err = rs.conn.Write(frame); err != nil {"); err != nil {
+			return err
+		}
+		parts = `[["header", "b"]]`
+	} else {
+		// two Write calls: header, then b
+		as, ok := s.(*ast.AssignStmt)
+		if !ok || as.Tok != token.DEFINE || types.ExprString(as.Lhs[0]) != "header" {
+			return g.errf(s, "sendHandler: expected `header := []byte{…}` or `frame := make([]byte, 0, len(b)+4)`")
+		}
+		hdr = as.Rhs[0]
+		for _, arg := range []string{"header", "b"} {
+			if _, err = w.expectPrefix("if _, err = rs.conn.Write(" + arg + "); err != nil {"); err != nil {
+				return err
+			}
+		}
+		parts = `[["header"], ["b"]]`
 	}
+	h, err := xh.exprT(hdr, frBytes)
+	if err != nil {
+		return err
+	}
+	fmt.Fprintf(b, "/-- the frame header: `%s` where lenBytes = intToBytes(len(b)) -/\ndef sendHeader (lenBytes : List UInt8) : List UInt8 := %s\n\n", types.ExprString(hdr), h)
 	if w.i != len(w.list) {
-		return fmt.Errorf("sendHandler: trailing statements after the two writes")
+		return fmt.Errorf("sendHandler: trailing statements after the write(s)")
 	}
-	fmt.Fprintf(b, "/-- the sender goroutine's `rs.conn.Write` calls per message, in order -/\ndef senderWrites : List String := [%s]\n\n", strings.Join(writes, ", "))
+	fmt.Fprintf(b, "/-- the sender goroutine's `rs.conn.Write` calls per message, in order; each call is the\n    concatenation of the listed parts -/\ndef senderWriteParts : List (List String) := %s\n\n", parts)
+	return nil
+}
+
+// drainFacts: what sendHandler does when ctxSender is cancelled.
+func (g *frameGen) drainFacts(fd *ast.FuncDecl, b *strings.Builder) error {
+	loop, _ := frFind(fd, func(n ast.Node) bool { _, ok := n.(*ast.ForStmt); return ok }).(*ast.ForStmt)
+	if loop == nil || loop.Init != nil || loop.Cond != nil || loop.Post != nil {
+		return fmt.Errorf("sendHandler: the send loop was not found")
+	}
+	l := loop.Body.List
+	// shape before the fix: select { case msg := <-rs.wr: …  case <-senderDone: return }
+	if len(l) == 1 {
+		if sel, ok := l[0].(*ast.SelectStmt); ok && len(sel.Body.List) == 2 {
+			if last := g.line(sel.Body.List[1]); last == "case <-senderDone: return" {
+				fmt.Fprintf(b, "/-- on `<-senderDone` sendHandler returns at once: what is still queued is discarded by Close -/\ndef senderDrainsOnDone : Bool := false\ndef drainWriteDeadline : String := \"\"\n\n")
+				return nil
+			}
+		}
+		return fmt.Errorf("sendHandler: cannot follow the send loop")
+	}
+	const (
+		drainSel = "{ select { case msg = <-rs.wr: default: return } }"
+		runPre   = "{ select { case msg = <-rs.wr: case <-senderDone: draining = true _ = rs.conn.SetWriteDeadline(time.Now().Add("
+		runSuf   = ")) continue sendLoop } }"
+	)
+	if len(l) != 3 || g.line(l[0]) != "var msg wamp.Message" {
+		return fmt.Errorf("sendHandler: cannot follow the send loop (expected `var msg`, the draining/select if, the message block)")
+	}
+	ifs, ok := l[1].(*ast.IfStmt)
+	if !ok || ifs.Init != nil || g.line(ifs.Cond) != "draining" || ifs.Else == nil || g.line(ifs.Body) != drainSel {
+		return g.errf(l[1], "sendHandler: expected `if draining { select { case msg = <-rs.wr: default: return } } else {…}`")
+	}
+	el := g.line(ifs.Else)
+	if !strings.HasPrefix(el, runPre) || !strings.HasSuffix(el, runSuf) {
+		return g.errf(ifs.Else, "sendHandler: cannot follow the non-draining select: %s", el)
+	}
+	if !g.has(fd, "draining := false") {
+		return fmt.Errorf("sendHandler: `draining := false` not found")
+	}
+	fmt.Fprintf(b, "/-- on `<-senderDone` sendHandler sets a write deadline and keeps taking messages from rs.wr\n    without blocking (`select { case msg = <-rs.wr: default: return }`) until it is empty -/\ndef senderDrainsOnDone : Bool := true\ndef drainWriteDeadline : String := %s\n\n",
+		leanStr(strings.TrimSuffix(strings.TrimPrefix(el, runPre), runSuf)))
 	return nil
 }
 
@@ -1367,7 +1450,7 @@ func (g *frameGen) readerFacts(b *strings.Builder) error {
 	fmt.Fprintf(b, "/-- the frame type: `%s` -/\ndef frameType (h0 : UInt8) : UInt8 := %s\n\n", g.line(sw.Tag), tag)
 	var cases strings.Builder
 	def := ".fallthroughNil" // no default clause: control reaches the send of a nil msg
-	pong := ""
+	pong, pongParts, pongAfter := "", "", ""
 	deser := ""
 	for _, cc := range sw.Body.List {
 		cl := cc.(*ast.CaseClause)
@@ -1392,6 +1475,26 @@ func (g *frameGen) readerFacts(b *strings.Builder) error {
 				return g.errf(last, "recvHandler: cannot classify the deserialisation error branch")
 			}
 			kind = ".msg"
+		case strings.Contains(txt, "rs.conn.Write(pong)"):
+			// one Write call after the whole payload has been read
+			if len(cl.Body) != 6 || g.line(cl.Body[0]) != "pong := make([]byte, length+4)" ||
+				g.line(cl.Body[2]) != "copy(pong[1:4], header[1:])" ||
+				!strings.HasPrefix(g.line(cl.Body[3]), "if _, err = io.ReadFull(rs.conn, pong[4:]); err != nil {") ||
+				!strings.HasSuffix(g.line(cl.Body[3]), "return }") ||
+				!strings.HasPrefix(g.line(cl.Body[4]), "if _, err = rs.conn.Write(pong); err != nil {") ||
+				g.line(cl.Body[5]) != "continue MsgLoop" {
+				return g.errf(cl, "recvHandler: PING case: expected make(length+4), pong[0] = …, copy of the length bytes, ReadFull(pong[4:]), Write(pong), continue")
+			}
+			as, ok := cl.Body[1].(*ast.AssignStmt)
+			if !ok || types.ExprString(as.Lhs[0]) != "pong[0]" || as.Tok != token.ASSIGN {
+				return g.errf(cl, "recvHandler: PING case: expected `pong[0] = …`")
+			}
+			p, err := xt.exprT(as.Rhs[0], frByte)
+			if err != nil {
+				return err
+			}
+			pong, pongParts, pongAfter = p, `[["header", "payload"]]`, "true"
+			kind = ".ping"
 		case strings.Contains(txt, "io.CopyN(rs.conn, rs.conn, int64(length))"):
 			as, ok := cl.Body[0].(*ast.AssignStmt)
 			if !ok || len(cl.Body) != 4 || types.ExprString(as.Lhs[0]) != "header[0]" || as.Tok != token.ASSIGN {
@@ -1401,7 +1504,7 @@ func (g *frameGen) readerFacts(b *strings.Builder) error {
 			if err != nil {
 				return err
 			}
-			pong = p
+			pong, pongParts, pongAfter = p, `[["header"], ["payload"]]`, "false"
 			if !strings.HasPrefix(g.line(cl.Body[1]), "if _, err = rs.conn.Write(header[:]); err != nil {") ||
 				!strings.HasPrefix(g.line(cl.Body[2]), "if _, err = io.CopyN(rs.conn, rs.conn, int64(length)); err != nil {") ||
 				g.line(cl.Body[3]) != "continue MsgLoop" {
@@ -1435,7 +1538,8 @@ func (g *frameGen) readerFacts(b *strings.Builder) error {
 	}
 	fmt.Fprintf(b, "/-- `switch header[0] & …`: what the reader does per frame type. `.fallthroughNil` appears\n    when the switch has no default clause: control then reaches `rs.rd <- msg` with a nil msg. -/\ndef readerCase (t : UInt8) : FrameKind :=\n%s  %s\n\n", cases.String(), def)
 	fmt.Fprintf(b, "/-- PING case: `header[0] = …` before the header is written back -/\ndef pongType : UInt8 := %s\n\n", pong)
-	fmt.Fprintf(b, "/-- the reader goroutine's writes for one PING, in order -/\ndef pongWrites : List String := [\"header[:]\", \"io.CopyN(rs.conn, rs.conn, length)\"]\n\n")
+	fmt.Fprintf(b, "/-- the reader goroutine's `rs.conn.Write` calls for one PING, in order (each call the\n    concatenation of the listed parts) -/\ndef pongWriteParts : List (List String) := %s\n\n", pongParts)
+	fmt.Fprintf(b, "/-- the PING payload is read completely (io.ReadFull) before anything is written back -/\ndef pongAfterPayload : Bool := %s\n\n", pongAfter)
 	fmt.Fprintf(b, "/-- a payload that does not deserialise is logged and skipped (`continue MsgLoop`) -/\ndef deserializeErrorSkips : Bool := %s\n\n", deser)
 	s, err = w.next("select")
 	if err != nil {
